@@ -10,7 +10,7 @@ for part in /tmp/seedcheck.part.*; do
   ( while read d; do
       sid=$(basename $d)
       chk=$(python3 -c "import json;m=json.load(open('$d/meta.json'));print(m.get('check') or m['property'])")
-      out=$(tools/seedtest2.sh $d/patch.diff $chk 2>&1)
+      out=$(tools/seedtest2.sh /verif/$d/patch.diff $chk 2>&1)
       rc=$(echo "$out" | sed -n 's/^seedtest rc=\([0-9]*\).*/\1/p')
       if echo "$out" | grep -q "PATCH DOES NOT APPLY"; then rc=NA; fi
       mech=$(echo "$out" | grep -o "mechanism=[^ ]*" | sort -u | sed 's/mechanism=//' | tr '\n' ' ')
